@@ -23,14 +23,16 @@ namespace
     o.force_surface = kind == 1 || kind == 4;
     o.partial = kind == 4;
     o.water = kind == 5;
+    o.sparse = kind == 6;
     return o;
   }
-  const unsigned NKINDS = 6;
+  const unsigned NKINDS = 7;
   const char *KINDN[] = {"cartesian+cross-section", "cartesian+cross-section+forced-surface-T", "spherical+cross-section", "cartesian, no cross section",
                          "cartesian+cross-section+forced-surface-T, features only partly replacing the incoming values (add operations, slab/fault models limited to part of the thickness)",
-                         "cartesian+cross-section, oceanic plate and slab (mass conserving) carrying 'tian water content' compositions, which ask the world for the temperature at the point"
+                         "cartesian+cross-section, oceanic plate and slab (mass conserving) carrying 'tian water content' compositions, which ask the world for the temperature at the point",
+                         "cartesian+cross-section, features lacking whole kinds of models (plume without velocity and grains models, slab without composition and velocity, fault without temperature and grains, plates without grains / velocity)"
                         };
-  const unsigned KINDS_2D[] = {0, 1, 2, 4, 5};   // the worlds with a cross section
+  const unsigned KINDS_2D[] = {0, 1, 2, 4, 5, 6};   // the worlds with a cross section
 
   // probes beyond the shared lattice: just above / at / just below the reference surface (negative depths are what an application with
   // topography or a deformed mesh asks for), and dense lines through the fault and the slab, where part of the thickness keeps incoming values
@@ -198,7 +200,7 @@ namespace
             const auto &al = (twod ? L.alone2 : L.alone3)[ip];
             const double d = twod ? L.d2[ip] : L.d3[ip];
             const double t = twod ? L.w->temperature(L.p2[ip], d) : L.w->temperature(L.p3[ip], d);
-            const double tg = twod ? L.w->temperature(L.p2[ip], d, 9.81) : L.w->temperature(L.p3[ip], d, 9.81);
+            const double tg = twod ? L.w->temperature(L.p2[ip], d, 3.7) : L.w->temperature(L.p3[ip], d, 3.7);   // the deprecated gravity argument is documented as unused: any value must do
             if (!biteq(t, al[0][0])) bad("temperature", ip, twod);
             if (!biteq(tg, al[0][0])) bad("temperature(gravity)", ip, twod);
             for (unsigned c = 0; c < 2; ++c)
@@ -226,9 +228,12 @@ namespace
   // prepare step): any cache or shared scratch keyed with a tolerance makes the second answer of a pair wrong.
   std::string engine_string(World &w) { std::stringstream ss; ss << w.get_random_number_engine(); return ss.str(); }
   const int NPAIRS = 4;
-  const int NOPS = 19;   // 0..7 pair queries (in,out)x4, 8: 2-D batched, 9: grains entry point, 10: construct W2, 11: query W2, 12: destroy W2,
+  const int NOPS = 22;   // 0..7 pair queries (in,out)x4, 8: 2-D batched, 9: grains entry point, 10: construct W2, 11: query W2, 12: destroy W2,
                          // 15 / 16: hydrated oceanic plate ('tian water content' asks the world for the temperature) at ONE cartesian point with two different depth arguments
                          // 17 / 18: W2 tag columns (441 depths) at two surface points 0.03 / 0.02 degrees apart over a mantle layer whose min depth is given at points
+                         // 19 / 20: a third world (spherical, all depth surfaces of the area features given at 30 points each): two points and then their mirror images across the
+                         //          equatorial plane - same cartesian x and y, other latitude, other local depths (19: north continental, north oceanic; 20: south oceanic, south continental)
+                         // 21: a fourth world over the same polygons as the third, with other depth surfaces: a tag column at the oceanic point operation 19 asked last
                          // 13: temperatures inside the second slab (mass conserving, spline of 5 points), 14: temperatures across the first slab (spline of 4 points)
   const char *PAIRN[NPAIRS] = {"continental-plate-west-edge", "mantle-layer-bottom", "slab-top-surface", "plume-rim"};
   std::string opname(int op)
@@ -237,7 +242,9 @@ namespace
     const char *n[] = {"W1.properties2d[vel,g12,T]", "W1.grains3d(0,3)", "construct W2 (spherical file across the dateline)", "W2.properties3d[T,c1,tag] at an aliased longitude", "destroy W2",
                        "W1.temperature at 9 points in the second slab (mass conserving model with a 5-point spline)", "W1.temperature at 25 points across the first slab (mass conserving model with a 4-point spline)",
                        "W1.properties3d[c1,c0,T] in the hydrated oceanic plate, depth argument 30 km", "W1.properties3d[c1,c0,T] at the same cartesian point, depth argument 55 km",
-                       "W2.tag down a column through a layer top given at points", "W2.tag down the column 0.03 degrees further east and 0.02 degrees further north"
+                       "W2.tag down a column through a layer top given at points", "W2.tag down the column 0.03 degrees further east and 0.02 degrees further north",
+                       "W3.properties3d[tag,T,c0,c1] at a continental and an oceanic point of the northern hemisphere, between the local plate bottoms of the two hemispheres", "W3.properties3d[tag,T,c0,c1] at the mirror images (same x and y, z negated) of those points, oceanic first",
+                       "W4.tag down a column at the oceanic point of W3's operation (same polygons, other depth surfaces)"
                       };
     return n[op-8];
   }
@@ -254,6 +261,10 @@ namespace
   std::string text_w1() { worlds::Opt o = opt_for(0); o.slab_model = 2; o.second_slab = true; o.water = true; return worlds::rich(o); }
   std::string text_w2() { worlds::Opt o; o.spherical = true; o.variant = 1; o.shift = 178; o.depth_points = true; return worlds::rich(o); }
   P3 point_w2() { return query_point(true, 181.5, 0.5, 8e4); }
+  std::string text_w3() { worlds::Opt o; o.spherical = true; o.many_depth_points = true; o.area_only = true; return worlds::rich(o); }
+  std::string text_w4() { worlds::Opt o; o.spherical = true; o.many_depth_points = true; o.area_only = true; o.depth_seed = 100; return worlds::rich(o); }
+  World &world4() { static std::unique_ptr<World> w4 = make_world(text_w4(), 1, "w4"); return *w4; }
+  World &world3() { static std::unique_ptr<World> w3 = make_world(text_w3(), 1, "w3"); return *w3; }
 
   struct Loaded2D { std::array<double,2> p2; double d2; P3 pg; double dg; };
   Loaded2D fixed_points()
@@ -283,6 +294,23 @@ namespace
         for (int k = 0; k < 16; ++k) { const double d = 4e4 + 1.5e4*k; t.push_back(w1.temperature(query_point(false, 2.0e5, -1.2e5, d), d)); }
         for (int k = 0; k < 9; ++k) { const double d = 1.6e5 + 0.5e4*k; t.push_back(w1.temperature(query_point(false, 2.0e5, -1.2e5, d), d)); }   // the lower edge of the thermal anomaly
         return t;
+      }
+    if (op == 21)
+      {
+        // first the very point and depth the third world was asked last (bitwise the same surface point), then the column
+        std::vector<double> t = world4().properties(query_point(true, 2.5, 3.0, 1.04e5), 1.04e5, {{{4,0,0}},{{1,0,0}},{{2,0,0}},{{2,1,0}}});
+        for (int k = 0; k <= 110; ++k) { const double d = 0.9e5 + 500.0*k; t.push_back(world4().properties(query_point(true, 2.5, 3.0, d), d, {{{4,0,0}}})[0]); }
+        return t;
+      }
+    if (op == 19 || op == 20)
+      {
+        // plate bottoms: oceanic 98 km (north) / 109 km (south) at longitude 2.5, latitude +-3; continental 113.5 km / 138.75 km at longitude -3.5
+        const Request req = {{{4,0,0}},{{1,0,0}},{{2,0,0}},{{2,1,0}}};
+        P3 c = query_point(true, -3.5, 3.0, 1.25e5), o = query_point(true, 2.5, 3.0, 1.04e5);
+        std::vector<double> out;
+        if (op == 19) { out = world3().properties(c, 1.25e5, req); const auto b = world3().properties(o, 1.04e5, req); out.insert(out.end(), b.begin(), b.end()); }
+        else { c[2] = -c[2]; o[2] = -o[2]; out = world3().properties(o, 1.04e5, req); const auto b = world3().properties(c, 1.25e5, req); out.insert(out.end(), b.begin(), b.end()); }
+        return out;
       }
     if (op == 17 || op == 18)
       {
@@ -424,6 +452,7 @@ namespace
       ctx.violation(std::string("C01/history/bisection-history-changed-answers/") + PAIRN[idx/2],
                     JObj().str("what", "two adjacent doubles found by bisecting on the tag (in one process) have identical answers in pristine processes: the answers seen during the bisection depended on the preceding queries")
                     .raw("inner", jarr(R.pin[idx/2])).raw("outer", jarr(R.pout[idx/2])).raw("pristine_answer", jarr(R.fresh[idx])).str("world1", t1).done());
+    if (len == 1 && idx == 19 && (R.fresh[19].size() != 8 || R.fresh[19][0] == R.fresh[20][4] || R.fresh[19][4] == R.fresh[20][0])) { fprintf(stderr, "C01: the mirrored points of W3 have the same tags in both hemispheres, the pair says nothing\n"); _exit(3); }
     if (len == 1 && idx == 17 && biteq(R.fresh[17], R.fresh[18])) { fprintf(stderr, "C01: the two neighbouring tag columns of W2 have identical pristine answers, the pair says nothing\n"); _exit(3); }
     std::unique_ptr<World> w1 = make_world(t1, 1, "h"), w2;
     auto hist = [&]()
@@ -474,9 +503,9 @@ int main(int argc, char **argv)
   Spec spec;
   spec.property = "C01";
   spec.level = "model_checking";
-  spec.rule = "batching suites: every request list of length <= L over an 8-atom alphabet x 6 rich worlds x all probe points (lattice, depths just above/at/below the surface, lines through the fault and the slab), each block compared bit-for-bit with the stand-alone "
-              "query through the same interface (non-trivial: list length >= 2 and at least one point inside a feature); history suites: every operation sequence of length <= D over 19 "
-              "operations (queries at 4 pairs of adjacent doubles straddling feature boundaries, 2-D batched query, grains entry point, construct/query/destroy a second, spherical world, tag columns of that world at two points 0.03 degrees apart through a sloping layer top given at points, temperature profiles through two slabs whose thermal models use splines of different sizes, a hydrated plate at one cartesian point with two depth arguments) "
+  spec.rule = "batching suites: every request list of length <= L over an 8-atom alphabet x 7 rich worlds x all probe points (lattice, depths just above/at/below the surface, lines through the fault and the slab), each block compared bit-for-bit with the stand-alone "
+              "query through the same interface (non-trivial: list length >= 2 and at least one point inside a feature); history suites: every operation sequence of length <= D over 22 "
+              "operations (queries at 4 pairs of adjacent doubles straddling feature boundaries, 2-D batched query, grains entry point, construct/query/destroy a second, spherical world, tag columns of that world at two points 0.03 degrees apart through a sloping layer top given at points, two points of a third spherical world and their mirror images with the same cartesian x and y, a tag column of a fourth world (same polygons, other depth surfaces) at the point the third world was asked last, temperature profiles through two slabs whose thermal models use splines of different sizes, a hydrated plate at one cartesian point with two depth arguments) "
               "each replayed in a freshly exec'd process, canonical state = bit pattern of 14 probe answers + serialised RNG engine + W2 alive (non-trivial: every enabled sequence; distinct by construction)";
   spec.assumptions = {"request alphabet: temperature, composition 0/1, grains (0,1) (0,3) (1,2), tag, velocity", "worlds without random models (random models are C15)",
                       "every explored trace is an implementation trace (no separate model)"
@@ -496,12 +525,12 @@ int main(int argc, char **argv)
     const unsigned L = th ? 4 : 3, D = th ? 4 : 3;
     std::vector<Suite> s;
     Suite a; a.name = "batch3d"; a.n = NKINDS*n_lists(L); a.run = [L](uint64_t i, Ctx &c) { run_batch(false, L, i, c); };
-    a.bound = "all request lists of length 1.." + std::to_string(L) + " over 8 atoms x 6 worlds x 410 points (lattice + points above/at/below the surface + lines through fault and slab), 3-D interface";
+    a.bound = "all request lists of length 1.." + std::to_string(L) + " over 8 atoms x 7 worlds x 410 points (lattice + points above/at/below the surface + lines through fault and slab), 3-D interface";
     s.push_back(a);
-    Suite b; b.name = "batch2d"; b.n = 5*n_lists(L); b.run = [L](uint64_t i, Ctx &c) { run_batch(true, L, i, c); };
-    b.bound = "all request lists of length 1.." + std::to_string(L) + " over 8 atoms x 5 worlds with cross section x 99 points, 2-D interface";
+    Suite b; b.name = "batch2d"; b.n = 6*n_lists(L); b.run = [L](uint64_t i, Ctx &c) { run_batch(true, L, i, c); };
+    b.bound = "all request lists of length 1.." + std::to_string(L) + " over 8 atoms x 6 worlds with cross section x 99 points, 2-D interface";
     s.push_back(b);
-    Suite e; e.name = "entrypoints"; e.n = 5; e.run = run_entry; e.bound = "temperature/composition/grains entry points (2-D and 3-D) vs properties() on 5 worlds x all points";
+    Suite e; e.name = "entrypoints"; e.n = 6; e.run = run_entry; e.bound = "temperature/composition/grains entry points (2-D and 3-D) vs properties() on 6 worlds x all points";
     s.push_back(e);
     { Suite r; r.name = "href"; r.n = 0; r.run = run_href; r.bound = "(helper: history-free answers computed in pristine processes; no cases of its own)"; s.push_back(r); }
     for (unsigned len = 1; len <= D; ++len)
@@ -510,7 +539,7 @@ int main(int argc, char **argv)
         h.n = 1; for (unsigned k = 0; k < len; ++k) h.n *= NOPS;
         h.run = [len](uint64_t i, Ctx &c) { run_history(len, i, c); };
         h.fresh_process = true;
-        h.bound = "all operation sequences of length " + std::to_string(len) + " over 19 operations (4 boundary-straddling pairs of adjacent doubles, 2-D batched query, grains entry point, "
+        h.bound = "all operation sequences of length " + std::to_string(len) + " over 22 operations (4 boundary-straddling pairs of adjacent doubles, 2-D batched query, grains entry point, "
                   "construct/query/destroy a spherical world across the dateline and two neighbouring tag columns in it, temperature profiles through two slabs with splines of different sizes); each sequence in a freshly exec'd process; disabled sequences skipped and counted";
         s.push_back(h);
       }
